@@ -144,7 +144,7 @@ CHECKS = {
              "match nothing; whatever acts at an event belongs to an installed trigger at that location with an open gate "
              "(only-when), every such action acts (when), no matching trigger means no action, each trigger contributes what "
              "it contributes alone wherever it stands, and the merge of same-location tracepoints of a response keeps every "
-             "action; in the composition (Handler.v) whatever fires was matched, permitted by its own limits and its condition held, and over any event sequence an action's statistics are those of the limiter run on the events at its own location. Tied to the code by generated trigger lists x events of all kinds, the same through convert_response, gated event sequences under a virtual clock, live programs (generator, caught exception, 3 threads) and threads overlapping inside one another's actions. Tie T2: LineLocation/FunctionLocation.at_location are translated from source on every run (coq/gen/PMatch.v); C03_the_code_matches_exactly is stated over the translated code.",
+             "action; in the composition (Handler.v) whatever fires was matched, permitted by its own limits and its condition held, and over any event sequence an action's statistics are those of the limiter run on the events at its own location. Tied to the code by generated trigger lists x events of all kinds, the same through convert_response, gated event sequences under a virtual clock, live programs (generator, caught exception, 3 threads) and threads overlapping inside one another's actions. Tie T2: LineLocation/FunctionLocation.at_location are translated from source on every run (coq/gen/PMatch.v); C03_the_code_matches_exactly is stated over the translated code; TriggerHandler._trace_call and location_from_event are translated too (coq/gen/PEvent.v): a normal form for every instantiation of its callees (every matching action gets one turn, in order: `if can_trigger and acquire: process`) and, with the translated matching, equality with the model's composition Handler.handle (TieEvent.v; the limiter instantiation is the library lemma TieEventHit.v).",
         note="Trusted: Coq kernel+VM; harness; scope is the events CPython delivers to the handler; gates open (C04/C10 decide gates); "
              "effect order within one event normalised.",
         design="5-C03"),
@@ -298,9 +298,9 @@ def main():
                  serves_properties=["C01", "C14", "C20"], kind_free_text="exception-flow language with verified may-escape / return-path / loop analyses; skeletons regenerated from the Python source by a fail-closed ast translator on every run; fault injection"),
             dict(name="E6-wire", path="coq/theories/Wire.v coq/theories/WireProofs.v coq/gen/WireMap.v harness/translate/wiremap.py harness/props/c08.py",
                  serves_properties=["C08"], kind_free_text="records as finite maps, table-driven conversion, losslessness law; tables regenerated from the converter functions; serialise/parse oracle"),
-            dict(name="E7-translated-functions", path="harness/translate/pure.py coq/theories/PureSupport.v coq/gen/PLimits.v coq/gen/PMatch.v coq/gen/PCollect.v coq/gen/PChildren.v coq/gen/PRender.v coq/gen/PSelect.v coq/gen/PTruth.v coq/gen/PGate.v coq/gen/PTable.v coq/gen/PFrames.v coq/gen/PStore.v coq/gen/PService.v coq/gen/PRegistry.v coq/gen/PCallbacks.v coq/gen/PMetrics.v coq/gen/PHooks.v coq/gen/PSpans.v coq/theories/TieSpans.v coq/theories/TieLimits.v coq/theories/TieMatch.v coq/theories/TieCollect.v coq/theories/TieTraverse.v coq/theories/TieNames.v coq/theories/TieChildren.v coq/theories/TieRender.v coq/theories/TieSelect.v coq/theories/TieTruth.v coq/theories/TieGate.v coq/theories/TieHit.v coq/theories/TieTable.v coq/theories/TieFrames.v coq/theories/TieStore.v coq/theories/TieService.v coq/theories/TieRegistry.v coq/theories/TieCallbacks.v coq/theories/TieMetrics.v coq/theories/TieHooks.v tools/mutate_pure.py",
+            dict(name="E7-translated-functions", path="harness/translate/pure.py coq/theories/PureSupport.v coq/gen/PLimits.v coq/gen/PMatch.v coq/gen/PCollect.v coq/gen/PChildren.v coq/gen/PRender.v coq/gen/PSelect.v coq/gen/PEvent.v coq/gen/PTruth.v coq/gen/PGate.v coq/gen/PTable.v coq/gen/PFrames.v coq/gen/PStore.v coq/gen/PService.v coq/gen/PRegistry.v coq/gen/PCallbacks.v coq/gen/PMetrics.v coq/gen/PHooks.v coq/gen/PSpans.v coq/theories/TieSpans.v coq/theories/TieLimits.v coq/theories/TieMatch.v coq/theories/TieCollect.v coq/theories/TieTraverse.v coq/theories/TieNames.v coq/theories/TieChildren.v coq/theories/TieRender.v coq/theories/TieSelect.v coq/theories/TieEvent.v coq/theories/TieEventHit.v coq/theories/TieTruth.v coq/theories/TieGate.v coq/theories/TieHit.v coq/theories/TieTable.v coq/theories/TieFrames.v coq/theories/TieStore.v coq/theories/TieService.v coq/theories/TieRegistry.v coq/theories/TieCallbacks.v coq/theories/TieMetrics.v coq/theories/TieHooks.v tools/mutate_pure.py",
                  serves_properties=["C02", "C03", "C04", "C05", "C07", "C10", "C11", "C12", "C13", "C14", "C15", "C17", "C18", "C19", "C20"],
-                 kind_free_text="53 functions of the agent translated statement by statement into Gallina on every run by a fail-closed Python-ast translator and proved equal to the functions of the hand-written models; property theorems stated over the translated code"),
+                 kind_free_text="55 functions of the agent translated statement by statement into Gallina on every run by a fail-closed Python-ast translator and proved equal to the functions of the hand-written models; property theorems stated over the translated code"),
             dict(name="E4-stores", path="coq/theories/Attrs.v coq/theories/AttrsProofs.v coq/theories/Config.v harness/props/c18.py harness/props/c19.py",
                  serves_properties=["C18", "C19"], kind_free_text="Gallina models of the attribute store, resources, configuration resolution; proofs; in-Coq correspondence"),
         ],
